@@ -71,12 +71,15 @@ func (c *Collection) Snapshot(dst io.Writer) error {
 	}()
 
 	// Take a snapshot of the current state
+	verifYield(5, 0)
 	if _, err := c.writeState(s2.NewWriter(dst)); err != nil {
 		return err
 	}
 
 	// Close the recorder
+	verifYield(7, 0)
 	c.recorderClose()
+	verifYield(8, 0)
 	return recorder.Copy(dst)
 }
 
@@ -137,6 +140,7 @@ func (c *Collection) writeState(dst io.Writer) (int64, error) {
 
 	// Write each chunk
 	if err := writer.WriteRange(chunks, func(i int, w *iostream.Writer) error {
+		verifYield(6, uint64(i))
 		return c.readChunk(commit.Chunk(i), func(lastCommit uint64, chunk commit.Chunk, fill bitmap.Bitmap) error {
 			offset := chunk.Min()
 
